@@ -10,7 +10,7 @@ META = {
     "assumptions": ["builtin models listed in coverage.builtin_models", "CBMC/Kani bit-precise semantics for the two magnitude harnesses"],
 }
 UNOPS = ["floor", "ceil", "trunc", "fract", "abs", "neg", "negref", "eq_zero", "eq_one", "is_negative", "is_positive", "magnitude"]
-NT = ["nt_is_zero", "nt_is_one", "nt_abs", "nt_signum", "nt_is_positive", "nt_is_negative", "nt_abs_sub", "nt_zero_one"]
+NT = ["nt_is_zero", "nt_is_one", "nt_abs", "nt_signum", "nt_is_positive", "nt_is_negative", "nt_abs_sub", "nt_zero_one", "nt_from_str_radix"]
 
 
 def configs(ctx):
@@ -155,6 +155,44 @@ def run_nt(ctx, res, op):
                 else:
                     res.d["violations"].append({"vc": "num-traits|" + nm, "inputs": {}, "info": {"op": op}})
         return res.done()
+    if op == "nt_from_str_radix":
+        # from_str_radix(s, radix): Err(Invalid) for every radix != 10, and exactly <Decimal as FromStr>::from_str(s) on the same
+        # string for radix 10 (from_str itself is the subject of C06; here it is an uninterpreted result token)
+        cands = [f for f in prog.by_last.get("from_str_radix", []) if nt(f)]
+        if len(cands) != 1:
+            raise Unsupported("num_traits from_str_radix: %d candidates" % len(cands))
+        st = State()
+        radix = sym_int("radix", "u32", st)
+        lit = StrV("<symbolic literal>")
+        token = Opaque("from_str-result")
+        calls = []
+
+        def c_from_str(ex, st_, fr, callee, args):
+            if "FromStr" not in callee:
+                return NotImplemented
+            calls.append(args[0])
+            return token
+        ex = new_executor(ctx, prog, contracts={"from_str": c_from_str})
+        outs = ex.explore(start_state(cands[0], [lit, radix], None, st))
+        res.absorb(ex, outs)
+        for i, o in enumerate(outs):
+            name = "num-traits|from_str_radix|path%d:%s" % (i, o.kind)
+            if o.kind != "return":
+                goal = False
+            elif o.value is token:
+                # delegated: only for radix 10, and on the caller's string
+                goal = (radix.t == 10) if all(a is lit for a in calls) and calls else False
+            else:
+                v = o.value
+                en = prog.enums
+                inv = (isinstance(v, EnumV) and v.ty == "Result" and en["Result"][v.variant] == "Err" and len(v.fields) == 1
+                       and isinstance(v.fields[0], EnumV) and v.fields[0].ty == "ParseDecimalError"
+                       and en["ParseDecimalError"][v.fields[0].variant] == "Invalid")
+                goal = (radix.t != 10) if inv else False
+            res.vc(ctx, name, o.state.constraints(), goal, {"c": radix.t}, {"op": op, "p": 0})
+        if not any(o.kind == "return" and o.value is token for o in outs) or len(outs) < 2:
+            res.d["inconclusive"].append("from_str_radix: the radix-10 delegation path / the rejection path was not reached (vacuity guard)")
+        return res.done()
     base = {"nt_is_zero": ("is_zero", "eq_zero"), "nt_is_one": ("is_one", "eq_one"), "nt_abs": ("abs", "abs"), "nt_signum": ("signum", None),
             "nt_is_positive": ("is_positive", "is_positive"), "nt_is_negative": ("is_negative", "is_negative"), "nt_abs_sub": ("abs_sub", None)}[op]
     cands = [f for f in prog.by_last.get(base[0], []) if nt(f)]
@@ -227,6 +265,16 @@ def replay(ctx, native, v):
         else:
             ok = obs[0] == "PANIC"
         return {"reproduced": not ok, "line": line, "observed": obs, "expected": "max(x - y, 0)", "profile": "dev"}
+    elif op == "nt_from_str_radix":
+        lits = ["-17.5", "5.4", "1e3", "abc"]
+        bad = []
+        for l in lits:
+            h = l.encode().hex()
+            a = nat.ask(("5 from_str_radix %s %d" % (h, c)) if h else "5 from_str_radix  %d" % c)
+            b = nat.ask("5 from_str %s" % h)
+            if (c == 10 and a != b) or (c != 10 and a != "ERR Invalid"):
+                bad.append((l, a, b))
+        return {"reproduced": bool(bad), "line": "5 nt_from_str_radix %d <lit>" % c, "observed": bad, "expected": "from_str for radix 10, Err(Invalid) otherwise", "profile": "dev"}
     elif op == "nt_zero_one":
         return {"reproduced": True, "line": "5 nt_is_zero d:0:0", "observed": "zero()/one() constant differs", "expected": "ZERO / ONE"}
     else:
